@@ -76,6 +76,11 @@ type LayoutOpts struct {
 	// NoLTBeforeSemi: no line terminator in front of a kept statement-terminating semicolon of
 	// the listed statement kinds (Token.SemiOf).
 	NoLTBeforeSemi map[string]bool
+	// ForceASI: deterministic mode for enumerations (Trivia must be empty): every statement
+	// terminator that 7.9.1 lets go is dropped - before "}" and at the end of input without anything,
+	// otherwise replaced by exactly this text, which must be a line terminator sequence, a
+	// multi-line comment containing one ("/*\n*/") or a single-line comment ("//c", closed by LF).
+	ForceASI string
 	// AvoidCRxLF: a lone CR line terminator followed by exactly one byte and then LF is written
 	// as LF instead (steering around a known finding).
 	AvoidCRxLF bool
@@ -118,6 +123,7 @@ func Layout(syn []Token, opt LayoutOpts) []Token {
 	var out []Token
 	var prev Token // previous syntactic token present in the text
 	havePrev := false
+	forced := false                   // ForceASI just wrote the separating line terminator
 	needLT := false                   // the previous semicolon was dropped and only a line terminator stands for it
 	emitTrivia := func(next *Token) { // next == nil: end of input
 		ltOK := next == nil || !next.NoLTBefore
@@ -175,7 +181,9 @@ func Layout(syn []Token, opt LayoutOpts) []Token {
 		if havePrev && len(items) > 0 && items[0].Kind == TComment && prev.Kind == TPunct && strings.HasSuffix(prev.Text, "/") {
 			items = append([]Token{{Kind: TWS, Text: " "}}, items...) // "/" + "/*" would open a line comment
 		}
-		if havePrev && next != nil && len(items) == 0 && NeedSep(prev, *next) {
+		if forced {
+			forced = false // the forced line terminator already separates the two tokens
+		} else if havePrev && next != nil && len(items) == 0 && NeedSep(prev, *next) {
 			items = append(items, Token{Kind: TWS, Text: " "})
 		}
 		out = append(out, items...)
@@ -184,6 +192,37 @@ func Layout(syn []Token, opt LayoutOpts) []Token {
 
 	for i := range syn {
 		t := syn[i]
+		if t.Semi && ch == nil && opt.ForceASI != "" {
+			var nb *Token
+			if i+1 < len(syn) {
+				nb = &syn[i+1]
+			}
+			bare := nb == nil || (nb.Kind == TPunct && nb.Text == "}")
+			viaLT := nb != nil && !asiHazard(*nb) && !nb.NoLTBefore
+			if opt.KeepSemi != nil && havePrev && opt.KeepSemi(prev, nb) {
+				bare, viaLT = false, false
+			}
+			if bare || viaLT {
+				t.Omitted = true
+				t.Text = ""
+				out = append(out, t)
+				if !bare {
+					switch {
+					case strings.HasPrefix(opt.ForceASI, "//"):
+						out = append(out, Token{Kind: TComment, Text: opt.ForceASI}, Token{Kind: TLT, Text: "\n"})
+					case strings.HasPrefix(opt.ForceASI, "/*"):
+						if havePrev && prev.Kind == TPunct && strings.HasSuffix(prev.Text, "/") {
+							out = append(out, Token{Kind: TWS, Text: " "})
+						}
+						out = append(out, Token{Kind: TComment, Text: opt.ForceASI})
+					default:
+						out = append(out, Token{Kind: TLT, Text: opt.ForceASI})
+					}
+					forced = true
+				}
+				continue
+			}
+		}
 		if t.Semi && ch != nil && !opt.NoASI {
 			var nb *Token
 			if i+1 < len(syn) {
